@@ -1,6 +1,8 @@
 """C14 - iterative rejection sampling respects request, budget and acceptance rule."""
+from . import filemodel
 from . import rejection as R
 
 PROPERTY = "C14"
-CONTRACTS = R.select(R.iterative_inmem, {"C14"})
-CALLEES = dict(R.INMEM_CALLEES)
+CONTRACTS = R.select(R.iterative_inmem + R.iterative_file, {"C14"})
+CALLEES = {**R.INMEM_CALLEES, **R.FILE_CALLEES}
+LIB = filemodel.install_repo_models({})
